@@ -56,6 +56,11 @@ CHECKS = {
          "Part A checks every message of every failing run of the mutated-corpus stream (non-ASCII, CR LF, truncated UTF-8) for location validity and for agreement between the printed line:column and the byte range; part B injects one fault of each kind at sampled positions of generated valid programs spread over files and demands that the first error lies on the faulty line of the right file. Exploration.",
          "Uses hook H1 (report message list). Malformed-directive faults are syntax errors not covered by the reference model; the missing-operand family is a listed known finding.",
          "6/C13"),
+ "C14": ("exploration",
+         "model-based property testing of inclusion graphs and path spellings against a reference path/inclusion model on an in-memory file server, a sampled replay on the real file system with a sentinel outside the project, and exhaustive enumeration of inclusion-function ranges",
+         "Random search over directory trees, inclusion graphs (chains, diamonds, cycles, #once) and path spellings incl. hostile ones; the expected marker sequence or rejection is decided by the reference model; one case in twelve is also run by the real binary in a scratch project with a sentinel above it. The (function, file length, start, length) table of incbin/incbinstr/inchexstr is enumerated completely for lengths 0..12.",
+         "The precedence between #once and cycle detection for a #once file that includes itself is not fixed by the statement and is excluded (counted); empty ranges, start = size and empty files are run but not asserted.",
+         "6/C14"),
  "C08": ("exploration",
          "metamorphic/differential property testing: the same job under the four optimisation-switch combinations x five iteration budgets must agree on success, bits and symbols",
          "Differential run of the real code against itself over generated (size-static and cascading) programs, the whole test corpus and token-mutated corpus programs. No model is trusted; exploration of a sampled program space.",
